@@ -232,6 +232,40 @@ def gen_case(rng, size="small"):
     return case
 
 
+EXH_HEADER = ("##fileformat=VCFv4.2\n##contig=<ID=chrA,length=2000>\n"
+              '##FORMAT=<ID=GT,Number=1,Type=String,Description="Genotype">\n'
+              '##FORMAT=<ID=PS,Number=1,Type=Integer,Description="Phase set">\n'
+              '##FORMAT=<ID=HP,Number=.,Type=String,Description="Phasing haplotype identifier">\n'
+              "#CHROM\tPOS\tID\tREF\tALT\tQUAL\tFILTER\tINFO\tFORMAT\tS1\n")
+# one-sample, one-chromosome alphabets: symbol -> (REF, ALT, FORMAT, call)
+EXH_ALPHABET = {
+    "PS": {"a": ("A", "C", "GT:PS", "0|1:7"), "b": ("A", "C", "GT:PS", "1|0:3"), "u": ("A", "C", "GT:PS", "0/1:."),
+           "h": ("A", "C", "GT:PS", "1|1:7"), "m": ("A", "C", "GT:PS", "./.:."), "p": ("A", "C", "GT:PS", "0|.:7"),
+           "i": ("AT", "A", "GT:PS", "0|1:7")},
+    "HP": {"a": ("A", "C", "GT:HP", "0/1:7-1,7-2"), "b": ("A", "C", "GT:HP", "0/1:3-2,3-1"), "u": ("A", "C", "GT:HP", "0/1:."),
+           "h": ("A", "C", "GT:HP", "1/1:7-1,7-2"), "m": ("A", "C", "GT:HP", "./.:."), "p": ("A", "C", "GT:HP", "./.:7-2,7-1"),
+           "i": ("AT", "A", "GT:HP", "0/1:7-2,7-1")},
+}
+
+
+def gen_exhaustive(maxlen, mode="PS", symbols="abuhmpi"):
+    """every sequence of call kinds up to maxlen on one chromosome (positions 100, 200, ...); sequences that
+    contain an indel are also run with --only-snvs"""
+    import itertools
+    alpha = EXH_ALPHABET[mode]
+    for n in range(1, maxlen + 1):
+        for seq in itertools.product(symbols, repeat=n):
+            lines = []
+            for k, sym in enumerate(seq):
+                ref, alt, fmt, call = alpha[sym]
+                lines.append(f"chrA\t{100 * (k + 1)}\t.\t{ref}\t{alt}\t.\t.\t.\t{fmt}\t{call}")
+            base = {"vcf": EXH_HEADER + "\n".join(lines) + "\n", "sample": None, "only_snvs": False, "chromosomes": None,
+                    "indexed": False, "tags": {"exhaustive": mode, "ploidy": 2, "miss": ("m" in seq or "p" in seq)}}
+            yield base
+            if "i" in seq:
+                yield dict(base, only_snvs=True)
+
+
 # ------------------------------------------------------------------------------------------------ abstraction
 def unpack_chromosomes(chromosomes):
     out = []
